@@ -8,7 +8,10 @@ from . import common
 from . import joinmodel as J
 from . import c09
 
-RULE = ("the C09 workloads (all key columns over {None,1,2} with 0-3 rows per side, sampled 1-3 key columns with duplicates / None / partial "
+from . import recompute
+
+RULE = ("[plus the shared recompute-after-history monitor: this property's operations evaluated on long-lived objects between in-place writes / renames must equal the same operations on fresh objects rebuilt from the current contents] "
+	"the C09 workloads (all key columns over {None,1,2} with 0-3 rows per side, sampled 1-3 key columns with duplicates / None / partial "
 	"agreement, multi-step join-edit-join histories) are run through join (left) and full_join and compared row for row with the nested-loop model "
 	"(unmatched left rows padded in place, unmatched right rows appended in right order); in addition every case is checked for conservation on the "
 	"unique row ids (each left id appears max(1, #matches) times, each right id of a full join max(1, #matches) times), containment inner <= left "
@@ -17,7 +20,7 @@ RULE = ("the C09 workloads (all key columns over {None,1,2} with 0-3 rows per si
 ASSUMPTIONS = c09.ASSUMPTIONS
 EXHAUSTIVE = {"flag": True, "scope": "all key columns over {None,1,2} with 0..3 rows on each side for left and full joins (every subset of unmatched rows)"}
 ANCHOR_FUNCS = ["table:Table.join", "table:Table.full_join"]
-REQUIRED_STRATA = {"exhaustive": 6000, "sampled": 300, "history": 100, "relations": 300}
+REQUIRED_STRATA = {"recompute": 200, "unmatched-order": 40, "chain": 100, "exhaustive": 6000, "sampled": 300, "history": 100, "relations": 300}
 
 
 def run_join(chk, spec):
@@ -116,10 +119,37 @@ def run_relations(chk, spec):
 			f"{spec!r}: full(L,R) {short(res['full'], 240)} vs full(R,L) {short(swapped, 240)}")
 
 
-RUNNERS = {"join": run_join, "exhaustive": c09.run_exhaustive, "history": run_history, "relations": run_relations}
+def run_unmatched_order(chk, spec):
+	"""many unmatched right rows (>= 9 rows, non-adjacent unmatched indices): they must be appended in right-table order"""
+	left = {"names": ["k", "lid"], "cols": [list(spec["lk"]), [f"L{i}" for i in range(len(spec["lk"]))]]}
+	right = {"names": ["r", "rid"], "cols": [list(spec["rk"]), [f"R{i}" for i in range(len(spec["rk"]))]]}
+	L, R = common.mk_table(left), common.mk_table(right)
+	J.check_join(chk, chk.pid, "unmatched-order", spec["how"], L, R, ["k"], ["r"], key_mode=spec["key_mode"], expect="many_to_many",
+		sig=("unmatched-order", spec["how"], len(spec["rk"]) // 8, spec["key_mode"]))
+
+
+def run_chain(chk, spec):
+	"""the result of one join is the input of the next: every stage is judged against the model over the actual contents"""
+	A, B, C = common.mk_table(spec["A"]), common.mk_table(spec["B"]), common.mk_table(spec["C"])
+	o1 = J.check_join(chk, chk.pid, "chain", spec["how1"], A, B, ["id"], ["cust"], key_mode="name", expect="many_to_many", sig=("chain1", spec["how1"]))
+	if not o1.ok or not isinstance(o1.value, Table) or len(o1.value) == 0:
+		return
+	book = o1.value
+	key2 = spec["key2"]
+	if key2 not in book.column_names():
+		return
+	for how2 in spec["how2"]:
+		J.check_join(chk, chk.pid, "chain", how2, C, book, ["who"], [key2], key_mode=spec["key_mode2"], expect="many_to_many", label="second-stage", sig=("chain2", spec["how1"], how2, key2))
+	# and the other way round: the earlier result on the left
+	J.check_join(chk, chk.pid, "chain", spec["how2"][0], book, C, [key2], ["who"], key_mode="name", expect="many_to_many", label="second-stage-left", sig=("chain3", spec["how1"], key2))
+
+
+RUNNERS = {"join": run_join, "exhaustive": c09.run_exhaustive, "history": run_history, "relations": run_relations, "unmatched_order": run_unmatched_order, "chain": run_chain}
+RUNNERS["recompute"] = recompute.runner("C10")
 
 
 def run(chk):
+	recompute.add_cases(chk, "C10")
 	rng = chk.rng
 	for how in ("left", "full"):
 		idx = 0
@@ -137,6 +167,28 @@ def run(chk):
 			spec = c09.gen_history(rng, how)
 			spec["how"] = how
 			chk.case("history", spec, "history")
+	for _ in range(80 if chk.quick() else 600):
+		nr = rng.choice([9, 10, 12, 17, 33, 40])
+		rk = list(range(nr))
+		if rng.random() < 0.3:
+			rk[rng.randrange(nr)] = None
+		matched = set(rng.sample(range(nr), rng.randrange(0, nr - 1)))
+		lk = [k for k in rk if k in matched and k is not None]
+		rng.shuffle(lk)
+		if rng.random() < 0.3:
+			lk = lk + lk[:2]
+		chk.case("unmatched_order", {"lk": lk, "rk": rk, "how": "full", "key_mode": rng.choice(["name", "vector"])}, "unmatched-order")
+	for _ in range(150 if chk.quick() else 1000):
+		def keycol(n):
+			return [rng.choice([1, 2, 3, 4, None]) for _ in range(n)]
+		na, nb, nc = rng.choice([1, 2, 3, 4]), rng.choice([1, 2, 3, 4]), rng.choice([1, 2, 3])
+		A = {"names": ["id", "lid"], "cols": [keycol(na), [f"A{i}" for i in range(na)]]}
+		B = {"names": ["cust", "rid"], "cols": [keycol(nb), [f"B{i}" for i in range(nb)]]}
+		C = {"names": ["who", "cid"], "cols": [keycol(nc), [f"C{i}" for i in range(nc)]]}
+		if all(x is None for x in A["cols"][0]) or all(x is None for x in B["cols"][0]) or all(x is None for x in C["cols"][0]):
+			continue
+		chk.case("chain", {"A": A, "B": B, "C": C, "how1": rng.choice(["full", "full", "left", "inner"]), "how2": rng.sample(["left", "full", "inner"], 2),
+			"key2": rng.choice(["id", "cust"]), "key_mode2": rng.choice(["name", "vector"])}, "chain")
 	# relations: exhaustive small keys + sampled
 	idx = 0
 	for lk in c09.key_seqs():
